@@ -31,6 +31,7 @@ type generator struct {
 // registry: add new tables here (one source file per table).
 var registry = []generator{
 	{Name: "RecoverTable", File: "RecoverTable.v", Run: genRecoverTable},
+	{Name: "DecTables", File: "DecTables.v", Run: genDecTables},
 }
 
 func writeIfChanged(path string, content []byte) (bool, error) {
